@@ -67,7 +67,7 @@ def explore(scenario, monitor_factory, bound=None, max_states=200000, max_depth=
         try:
             for lab in (preamble or ()):
                 lab = tuple(lab)
-                if lab[0] not in ("crash", "restart", "arm_crash"):
+                if lab[0] not in ("crash", "restart", "arm_crash", "sleep", "advance"):
                     en = w.enabled()
                     w.enabled_cache = en
                     if lab not in en:
@@ -180,7 +180,7 @@ def run_labels(scenario, monitor_factory, labels, quiesce=False):
         lab = tuple(lab)
         en = w.enabled()
         w.enabled_cache = en
-        if lab not in en and lab[0] not in ("crash", "restart", "arm_crash"):
+        if lab not in en and lab[0] not in ("crash", "restart", "arm_crash", "sleep", "advance"):
             raise HarnessError("replay diverged at step %d: %r not enabled (enabled: %r)" % (k, lab, en))
         w.step(lab)
     if quiesce:
